@@ -10,4 +10,4 @@ for prop in "$@"; do
   echo "$prop rc=$rc alarms=$bad $(grep tier= /tmp/refactor_$prop.log | cut -c1-160)"
   grep -E "^(VIOLATION|PROOF-BROKEN|CHECKER-ERROR|UNDECIDED)" /tmp/refactor_$prop.log | head -4 | cut -c1-300
 done
-cd /repo && git checkout -- . && git status --short | head -3
+cd /repo && git checkout -- . && git status --short | head -3; (cd /verif && git checkout -- evidence 2>/dev/null)   # evidence written against a changed tree is discarded
